@@ -486,6 +486,11 @@ func (r *vsRun) step(st vsStep) {
 		if st.N < len(trs) {
 			_ = trs[st.N].Stop()
 		}
+	case "setMid":
+		trs := p.pc.GetTransceivers()
+		if st.N < len(trs) {
+			_ = trs[st.N].SetMid("verif-mid") // refused when the transceiver has a mid
+		}
 	case "createDC":
 		p.dcs++
 		if _, err := p.pc.CreateDataChannel(fmt.Sprintf("dc%d", p.dcs), nil); err != nil {
